@@ -1,7 +1,7 @@
 CONSTANTS
-  MaxRows = 5
+  MaxRows = 6
   MaxDepth = 6
-  InitRowsA = {2, 3, 4}
+  InitRowsA = {2, 3, 4, 6}
   WithEmptyB = FALSE
 SPECIFICATION Spec
 INVARIANT EmitProgram
